@@ -78,14 +78,13 @@ def run(chk, prop):
     res = chk.model_check("MC_Sub", cfg, dump=True)
     cache = valgen.SchemaCache(chk)
     events = []
+    import d42
     for st in core.load_dump(res, only='phase = "sub"'):
         if st["phase"] != "sub":
             continue
         s, v = st["s"], st["v"]
         is_seed = (v == st["seed"])
         chk.count("model_cases")
-        if not is_seed and chk.rng.random() > keep:
-            continue
         real, why = cache.get(s)
         if real is None:
             continue
@@ -94,6 +93,20 @@ def run(chk, prop):
             v_abs = am.a_value(v_real)
         except am.Unrepresentable:
             chk.count("value_not_concretisable")
+            continue
+        # cheap pass over *every* case: does the real outcome match the model's prediction?
+        # (a mismatch is only drift -- but that case is then observed in full and judged)
+        model = st["r"]
+        try:
+            quick_res = d42.substitute(real, v_real)
+            rep_q, abs_q = try_abs(am.a_schema, quick_res)
+            differs = (not model["ok"]) or (rep_q and abs_q[0] != model["s"])
+        except BaseException as e:  # noqa
+            differs = model["ok"] or model["exc"] != type(e).__name__
+        chk.count("outcomes_compared_with_model")
+        if differs:
+            chk.count("outcome_differs_from_model")
+        if not (is_seed or differs or chk.rng.random() <= keep):
             continue
         ev = observe(real, s, v_abs, v_real, nprobes, chk.rng)
         ev["id"] = len(events) + 1
@@ -116,7 +129,8 @@ def run(chk, prop):
         "schema universe of spec/MC_Sub.tla (%s containers; scalars reachable by <= %d DSL calls)" % (cset, depth),
         "values: generated seeds under the four constant tapes and every one-step edit of them "
         "(partial dicts, replaced members incl. an unconvertible tuple, extra keys)%s"
-        % ("" if keep == 1.0 else "; %.0f%% of the edited-value cases sampled with VERIF_SEED" % (keep * 100)),
+        % ("" if keep == 1.0 else "; the real outcome of every case is compared with the model's prediction, all cases "
+           "that differ, all seed-value cases and %.0f%% of the rest (VERIF_SEED) are observed in full" % (keep * 100)),
         "at most %d probe values per case for the accepted-set comparisons" % nprobes,
     ]
     return chk.finish(rule="(schema, value) substitutions enumerated by the machine; non-trivial = a case "
